@@ -538,6 +538,7 @@ fn live_tokio(tier: &str, seed: u64) -> Vec<Case> {
                         // record ask for a reply no datagram can carry (the send fails; the listener goes on)
                         let own_name = Name::new_unchecked("me._verif14t._tcp.local");
                         nap(250).await; // let the listener drain what was sent so far: the queries must not be dropped by a full receive buffer
+                        for d in [vec![], vec![0u8], vec![0u8, 0], vec![0u8, 0, 0x84], vec![0u8; 4], vec![0xFFu8; 11]] { let _ = sock.send_to(&d, dest); nap(5).await; }
                         for k in [400usize, 1400, 400] { let _ = sock.send_to(&amplification_query(&own_name, k), dest); nap(60).await; }
                         nap(150).await;
                         let deadline = Instant::now() + Duration::from_secs(8);
@@ -614,6 +615,52 @@ fn live_tokio(tier: &str, seed: u64) -> Vec<Case> {
                         Ok(Ok(Some(a))) => { c = c.tag("resolver-answered"); if format!("{:?}", a) != "127.0.0.9" { c = c.fail("resolver-answer", format!("answered {:?} for a name whose only address record is 127.0.0.9", a)); } }
                         Ok(_) => { c = c.tag("resolver-no-answer"); }
                     }
+                    // the address-and-port query: unrelated announcements, a response without any SRV record for the name, one
+                    // with an SRV record that has no RDATA, then the real one
+                    let pname = Name::new_unchecked("verif-res14tp._tcp.local");
+                    let sender = async {
+                        nap(150).await;
+                        let mut other = Packet::new_reply(0);
+                        other.answers.push(ResourceRecord::new(Name::new_unchecked("someone-else._tcp.local"), CLASS::IN, 120, RData::PTR(PTR(Name::new_unchecked("x.someone-else._tcp.local")))));
+                        let _ = sock.send_to(&other.build_bytes_vec().unwrap(), dest);
+                        let mut only_a = Packet::new_reply(0);
+                        only_a.answers.push(ResourceRecord::new(pname.clone(), CLASS::IN, 5, RData::A(A { address: 3 })));
+                        let _ = sock.send_to(&only_a.build_bytes_vec().unwrap(), dest);
+                        let mut empty_srv = vec![0u8, 0, 0x84, 0, 0, 0, 0, 1, 0, 0, 0, 0];
+                        for l in pname.get_labels() { empty_srv.push(l.len() as u8); empty_srv.extend_from_slice(l.as_bytes()); }
+                        empty_srv.extend_from_slice(&[0, 0, 33, 0, 1, 0, 0, 0, 5, 0, 0]);
+                        let _ = sock.send_to(&empty_srv, dest);
+                        nap(30).await;
+                        let mut full = Packet::new_reply(0);
+                        full.answers.push(ResourceRecord::new(pname.clone(), CLASS::IN, 5, RData::SRV(simple_dns::rdata::SRV { priority: 0, weight: 0, port: 8556, target: pname.clone() })));
+                        full.additional_records.push(ResourceRecord::new(pname.clone(), CLASS::IN, 5, RData::A(A { address: 0x7F000009 })));
+                        let _ = sock.send_to(&full.build_bytes_vec_compressed().unwrap(), dest);
+                    };
+                    let query = tokio::time::timeout(Duration::from_secs(8), resolver.query_service_address_and_port("verif-res14tp._tcp.local"));
+                    let (ans, _) = tokio::join!(query, sender);
+                    match ans {
+                        Err(_) => { c = c.fail("resolver-wedged", "tokio flavour: query_service_address_and_port did not return within 8 s of a 0.9 s timeout".into()); }
+                        Ok(Ok(Some(a))) => { c = c.tag("resolver-port-answered"); if format!("{:?}", a) != "127.0.0.9:8556" { c = c.fail("resolver-answer", format!("tokio flavour: answered {:?} for SRV port 8556 at 127.0.0.9", a)); } }
+                        Ok(_) => { c = c.tag("resolver-port-no-answer"); }
+                    }
+                    // a query ends at its timeout while unrelated queries and responses keep arriving (25 of each per second)
+                    resolver.set_query_timeout(Duration::from_millis(500));
+                    let t0 = Instant::now();
+                    let flood = async {
+                        let mut q = Packet::new_query(0x7777);
+                        q.questions.push(Question::new(Name::new_unchecked("someone-else._tcp.local"), TYPE::PTR.into(), CLASS::IN.into(), false));
+                        let qb = q.build_bytes_vec().unwrap();
+                        let mut other = Packet::new_reply(0);
+                        other.answers.push(ResourceRecord::new(Name::new_unchecked("someone-else._tcp.local"), CLASS::IN, 120, RData::PTR(PTR(Name::new_unchecked("x.someone-else._tcp.local")))));
+                        let rb = other.build_bytes_vec().unwrap();
+                        let end = Instant::now() + Duration::from_millis(2500);
+                        while Instant::now() < end { let _ = sock.send_to(&qb, dest); let _ = sock.send_to(&rb, dest); nap(40).await; }
+                    };
+                    let query = async { let r = tokio::time::timeout(Duration::from_secs(8), resolver.query_service_address("verif-nobody14t._tcp.local")).await; (r.is_ok(), t0.elapsed()) };
+                    let ((returned, took), _) = tokio::join!(query, flood);
+                    if !returned { c = c.fail("resolver-wedged", "tokio flavour: a query with a 0.5 s timeout did not return within 8 s of unrelated traffic".into()); }
+                    else if took > Duration::from_millis(1600) { c = c.fail("resolver-wedged", format!("tokio flavour: a query with a 0.5 s timeout returned after {} ms while unrelated queries and responses kept arriving", took.as_millis())); }
+                    else { c = c.tag("resolver-timeout-kept"); }
                 }
             }
             out.push(c);
@@ -752,10 +799,16 @@ fn live_resolver(tier: &str, seed: u64) -> Case {
         let mut q = Packet::new_query(0x7777);
         q.questions.push(Question::new(Name::new_unchecked("someone-else._tcp.local"), TYPE::PTR.into(), CLASS::IN.into(), false));
         let qb = q.build_bytes_vec().unwrap();
+        // ... and other hosts' answers to them: responses with the id every mDNS message carries (0) and an answer, which
+        // pass the resolver's header peek and are handed to the query loop - the deadline is the query's, not the datagram's
+        let mut other = Packet::new_reply(0);
+        other.answers.push(ResourceRecord::new(Name::new_unchecked("someone-else._tcp.local"), CLASS::IN, 120, RData::PTR(PTR(Name::new_unchecked("x.someone-else._tcp.local")))));
+        let rb = other.build_bytes_vec().unwrap();
         let flood_end = std::time::Instant::now() + Duration::from_millis(2500);
         let mut took = None;
         while std::time::Instant::now() < flood_end && took.is_none() {
             let _ = sock.send_to(&qb, dest);
+            let _ = sock.send_to(&rb, dest);
             if let Ok(d) = rx.recv_timeout(Duration::from_millis(40)) { took = Some(d); }
         }
         let took = match took { Some(d) => Some(d), None => rx.recv_timeout(Duration::from_secs(6)).ok() };
@@ -820,6 +873,8 @@ fn live_discovery(tier: &str, seed: u64) -> Case {
     // a reply no datagram can carry (the send fails; the listener goes on)
     let own_name = Name::new_unchecked("me._verif14d._tcp.local");
     std::thread::sleep(Duration::from_millis(250)); // let the listener drain what was sent so far
+    // datagrams shorter than a header: nothing to parse, nothing to slice
+    for d in [vec![], vec![0u8], vec![0u8, 0], vec![0u8, 0, 0x84], vec![0u8; 4], vec![0xFFu8; 11]] { let _ = sock.send_to(&d, dest); std::thread::sleep(Duration::from_millis(5)); }
     for k in [400usize, 1400, 400] { let _ = sock.send_to(&amplification_query(&own_name, k), dest); std::thread::sleep(Duration::from_millis(60)); }
     std::thread::sleep(Duration::from_millis(150));
     let deadline = Instant::now() + Duration::from_secs(8);
@@ -882,8 +937,7 @@ fn live_pair() -> Case {
     let mut c = Case::oracle_only().tag("sockets-pair");
     let res = std::panic::catch_unwind(|| -> std::result::Result<&'static str, String> {
         let svc = "_verif15p._tcp.local";
-        let a = InstanceInformation::new("alpha-one".to_string()).with_ip_address(IpAddr::V4(Ipv4Addr::new(10, 1, 2, 3))).with_port(8101)
-            .with_attribute("path".to_string(), Some("/x".to_string())).with_attribute("flag".to_string(), None);
+        let a = pair_instance();
         let b = InstanceInformation::new("beta".to_string()).with_ip_address(IpAddr::V4(Ipv4Addr::new(10, 1, 2, 4))).with_port(8102);
         let mut sa = match ServiceDiscovery::new(a.clone(), svc, 60) { Ok(s) => s, Err(_) => return Ok("not-exercised") };
         let sb = match ServiceDiscovery::new(b.clone(), svc, 60) { Ok(s) => s, Err(_) => return Ok("not-exercised") };
@@ -917,6 +971,41 @@ fn live_pair() -> Case {
     c
 }
 
+/// the advertised instance of the live pairs: dual-stack (an IPv4, a unique-local and a link-local IPv6 address), two ports,
+/// and two dozen attributes of about 220 bytes each - an announcement of about 5.5 KB, well inside the 9000 bytes an mDNS
+/// message may have (RFC 6762 17)
+fn pair_instance() -> InstanceInformation {
+    let mut a = InstanceInformation::new("alpha-one".to_string()).with_ip_address(IpAddr::V4(Ipv4Addr::new(10, 1, 2, 3))).with_port(8101).with_port(8103)
+        .with_ip_address(IpAddr::V6(Ipv6Addr::from((0xFD00u128 << 112) + 0x23))).with_ip_address(IpAddr::V6(Ipv6Addr::from((0xFE80u128 << 112) + 0x24)))
+        .with_attribute("path".to_string(), Some("/x".to_string())).with_attribute("flag".to_string(), None);
+    for k in 0..24 { a = a.with_attribute(format!("attribute{:02}", k), Some(format!("{}", (b'a' + k as u8) as char).repeat(208))); }
+    a
+}
+
+/// the tokio flavour of `live_pair`: two `ServiceDiscovery` instances of one service in one process
+async fn live_pair_tokio() -> Case {
+    use simple_mdns::async_discovery::ServiceDiscovery;
+    use std::time::{Duration, Instant};
+    let mut c = Case::oracle_only().tag("sockets-pair").tag("sockets-tokio");
+    let svc = "_verif15q._tcp.local";
+    let a = pair_instance();
+    let b = InstanceInformation::new("beta".to_string()).with_ip_address(IpAddr::V4(Ipv4Addr::new(10, 1, 2, 4))).with_port(8102);
+    let (mut sa, sb) = match (ServiceDiscovery::new(a.clone(), svc, 60), ServiceDiscovery::new(b.clone(), svc, 60)) { (Ok(x), Ok(y)) => (x, y), _ => return c.tag("sockets-not-exercised") };
+    let deadline = Instant::now() + Duration::from_secs(4);
+    let mut seen = None;
+    while Instant::now() < deadline && seen.is_none() {
+        let _ = sa.announce(false).await;
+        tokio::time::sleep(Duration::from_millis(150)).await;
+        let known = match tokio::time::timeout(Duration::from_secs(2), sb.get_known_services()).await { Ok(k) => k, Err(_) => return c.fail("discovery-wedged", "tokio pair: get_known_services does not return".into()) };
+        if known.iter().any(|i| i.unescaped_instance_name() == "beta") { return c.fail("live-discovery-differs", "tokio pair: a discovery reports its own instance".into()); }
+        seen = known.into_iter().find(|i| i.unescaped_instance_name() == "alpha-one");
+    }
+    let got = match seen { Some(g) => g, None => return c.tag("sockets-not-exercised") };
+    if inst_text(&got, "alpha-one") != inst_text(&a, "alpha-one") { return c.fail("live-discovery-differs", format!("tokio pair: advertised {} discovered {}", inst_text(&a, "alpha-one"), inst_text(&got, "alpha-one"))); }
+    sa.remove_service_from_discovery().await;
+    c.tag("sockets-alive")
+}
+
 fn inst_text(i: &InstanceInformation, name: &str) -> String {
     let ips: Vec<String> = i.ip_addresses.iter().map(|ip| match ip { IpAddr::V4(x) => format!("4:{}", u32::from(*x)), IpAddr::V6(x) => format!("6:{}", u128::from(*x)) }).collect();
     let ports: Vec<String> = i.ports.iter().map(|p| p.to_string()).collect();
@@ -948,6 +1037,7 @@ pub fn c15(tier: &str, seed: u64) -> Vec<Case> {
         let mut wires: Vec<Vec<u8>> = vec![];
         let peers = r.range(1, 3) as usize;
         let mut has_empty_key = false;
+        let mut split_names: Vec<String> = vec![];
         let mut name_pool = vec!["printer", "Printer", "PRINTER", "Living-Room", "living-room", "x", "X", "a1_b", "n0", "a23456789012345678901234567890123456789012345678901234567890123", "b2345678901234567890123456789012345678901234567890123456789012"];
         for _peer in 0..peers {
             // distinct names within a history; names equal up to letter case are distinct instances
@@ -979,8 +1069,11 @@ pub fn c15(tier: &str, seed: u64) -> Vec<Case> {
                 }
                 v.push(cc);
             }
-            for _ in 0..r.below(4) {
-                let key = if r.chance(1, 30) { String::new() } else { r.pick(&["path", "v", "é", "k k", "a;b", "Path", "PATH", "ID", "É", "Key9"]).to_string() };
+            // up to three attributes mostly; now and then a dozen, and several IPv6 addresses
+            if r.chance(1, 10) { for k in 0..r.range(2, 5) { inst = inst.with_ip_address(IpAddr::V6(Ipv6Addr::from((0xFD00u128 << 112) + k as u128))); } }
+            let nattr = if r.chance(1, 10) { r.range(8, 24) } else { r.below(4) };
+            for na in 0..nattr {
+                let key = if r.chance(1, 30) { String::new() } else if na >= 4 { format!("key{}", na) } else { r.pick(&["path", "v", "é", "k k", "a;b", "Path", "PATH", "ID", "É", "Key9"]).to_string() };
                 has_empty_key |= key.is_empty();
                 let val = match r.below(16) { 0..=4 => None, 5..=9 => Some(String::new()), 15 if !key.is_empty() => Some("v".repeat(254 - key.len() - r.below(2) as usize)), _ => Some(r.pick(&["1", "=x=", "ü", "a b"]).to_string()) };
                 inst = inst.with_attribute(key, val);
@@ -1017,12 +1110,28 @@ pub fn c15(tier: &str, seed: u64) -> Vec<Case> {
             }
             // what another implementation puts on the wire: every fourth announcement is encoded by the independent
             // reference encoder (RFC field layouts, its own compression choices) instead of the library's writer
-            let wire = if r.chance(1, 4) { crate::refenc::encode_packet(&text::packet(&p), crate::refenc::Compress::Random(&mut r2enc, 6), false, None).0 } else { p.build_bytes_vec_compressed().unwrap() };
-            wires.push(wire.clone());
-            let parsed = match Packet::parse(&wire) { Ok(x) => x, Err(_) => { v.push(Case::oracle_only().tag("reference-announcement").fail("discovery-differs", "an announcement encoded by the reference encoder is rejected".into())); continue; } };
-            line.push_str(&format!(" I 0 {} {} {}", text::name(&service), text::name(&own), text::packet(&parsed)));
-            let mut ch = None;
-            sync_add_response_to_resources(parsed, &service, &own, &mut store, &mut ch);
+            // one peer in four sends its records in two responses (SRV and TXT first, the addresses later - an answer to an
+            // SRV question followed by an answer to an address question): what is known accumulates
+            let parts: Vec<Packet<'static>> = if r.chance(1, 4) {
+                let (mut first, mut second) = (p.clone(), p.clone());
+                first.answers.retain(|x| !matches!(x.rdata, RData::A(_) | RData::AAAA(_)));
+                second.answers.retain(|x| matches!(x.rdata, RData::A(_) | RData::AAAA(_)));
+                second.additional_records.clear();
+                if second.answers.is_empty() { vec![first] } else if r.chance(1, 2) { vec![first, second] } else { vec![second, first] }
+            } else { vec![p] };
+            let mut rejected = false;
+            // (the on_discovery channel reports what each response says; an instance whose records come in two responses
+            // is reported in two parts there, and whole by `get_known_services`)
+            if parts.len() > 1 { split_names.push(iname.clone()); }
+            for p in parts {
+                let wire = if r.chance(1, 4) { crate::refenc::encode_packet(&text::packet(&p), crate::refenc::Compress::Random(&mut r2enc, 6), false, None).0 } else { p.build_bytes_vec_compressed().unwrap() };
+                wires.push(wire.clone());
+                let parsed = match Packet::parse(&wire) { Ok(x) => x, Err(_) => { v.push(Case::oracle_only().tag("reference-announcement").fail("discovery-differs", "an announcement encoded by the reference encoder is rejected".into())); rejected = true; break; } };
+                line.push_str(&format!(" I 0 {} {} {}", text::name(&service), text::name(&own), text::packet(&parsed)));
+                let mut ch = None;
+                sync_add_response_to_resources(parsed, &service, &own, &mut store, &mut ch);
+            }
+            if rejected { continue; }
             advertised.push((iname, inst));
         }
         line.push_str(&format!(" K {} 1", text::name(&service)));
@@ -1105,7 +1214,7 @@ pub fn c15(tier: &str, seed: u64) -> Vec<Case> {
             }
             let mut cc = Case::oracle_only().tag("on-discovery-channel");
             if sync_reports != async_reports { cc = cc.fail("reports-differ", format!("sync flavour reported {} instance(s), the tokio flavour with a slow reader {}", sync_reports.len(), async_reports.len())); }
-            for (n, i) in &advertised { let t = inst_text(i, n); if !has_empty_key && !sync_reports.contains(&t) { cc = cc.fail("not-reported", format!("advertised instance {} was never reported on the channel", n)); } }
+            for (n, i) in &advertised { let t = inst_text(i, n); if !has_empty_key && !split_names.contains(n) && !sync_reports.contains(&t) { cc = cc.fail("not-reported", format!("advertised instance {} was never reported on the channel", n)); } }
             v.push(cc);
         }
         v.push(c);
@@ -1157,6 +1266,10 @@ pub fn c15(tier: &str, seed: u64) -> Vec<Case> {
         v.push(c);
     }
     v.push(live_pair());
+    v.push(match std::panic::catch_unwind(|| { let rt = tokio::runtime::Builder::new_current_thread().enable_all().build().unwrap(); rt.block_on(live_pair_tokio()) }) {
+        Ok(c) => c,
+        Err(_) => Case::oracle_only().tag("sockets-pair").fail("live-discovery-panic", "tokio pair: a ServiceDiscovery call panicked".into()),
+    });
     v.push(live_late_joiner());
     // a peer that leaves says goodbye with the cache-flush bit (what `remove_service_from_discovery` sends: the same
     // records, `to_cache_flush_record`): through the discovery pipeline (wire, parse, filter, into_owned, store) the
